@@ -109,7 +109,10 @@ def solve_smt2(o, timeout_ms=20000, cvc5=True, both=False):
     lite = o.pop('smt2_lite', None)
     mid = o.pop('smt2_mid', None)
     if o['kind'] != 'cover':
-        for text, name in ((lite, 'z3(lite)'), (mid, 'z3(mid)')):
+        if isinstance(mid, str):
+            mid = [mid]
+        tiers = [(lite, 'z3(lite)')] + [(m_, 'z3(mid%d)' % (i_ + 1)) for i_, m_ in enumerate(mid or [])]
+        for text, name in tiers:
             if text is None:
                 continue
             for opts in ({}, {'smt.ematching': False}):
@@ -158,7 +161,25 @@ def solve_smt2(o, timeout_ms=20000, cvc5=True, both=False):
         o['status'] = 'unknown'
         o['goal'] = smt2[-1500:]
         o['reason'] = s.reason_unknown()
-        if cvc5 and os.path.exists(CVC5) and 'lambda' not in smt2:
+        # the full query is undecided.  Look for a counterexample of the weakened queries (quantified assumptions from
+        # contract clauses dropped, their eager instances at the objects the path touches kept): such a model satisfies
+        # the class invariants wherever the execution looks.  It is reported as a refutation, flagged as such.
+        for text, name in ([(m_, 'z3(mid-model)') for m_ in reversed(mid or [])] + [(lite, 'z3(lite-model)')]):
+            if text is None:
+                continue
+            s2 = z3.Solver()
+            s2.set('timeout', int(min(timeout_ms, 8000)))
+            s2.from_string(text)
+            if s2.check() == z3.sat:
+                o['status'] = 'refuted'
+                o['backend'] = name
+                o['weak_model'] = True
+                try:
+                    o['model'] = model_to_json(s2.model())
+                except Exception:
+                    o['model'] = None
+                break
+        if o['status'] == 'unknown' and cvc5 and os.path.exists(CVC5) and 'lambda' not in smt2:
             res = run_cvc5(smt2, max(timeout_ms / 1000.0, 5))
             if res == 'unsat':
                 o['status'] = 'proved'
